@@ -3,6 +3,7 @@ import Ark.Proofs.MaskLemmas
 import Ark.Proofs.ArchIndex
 import Ark.Props.C03Drain
 import Ark.Props.C20Words
+import Ark.Proofs.GenBridge.BookArchetype
 
 namespace Ark.Props.C03
 open Ark
@@ -62,5 +63,23 @@ theorem words_mask64_containsAny : type_of% @Ark.Props.C20Words.mask64_containsA
 
 theorem words_mask64_not : type_of% @Ark.Props.C20Words.mask64_not := @Ark.Props.C20Words.mask64_not
 
+
+
+/-! ### The code itself: the relation-index bookkeeping of archetype.go, translated statement by statement on every run -/
+
+/-- `archetype.AddTable` as in the source = the model's `Archetype.addTable`, for every archetype and every table with the archetype's layout -/
+theorem src_idx_addTable : type_of% @Ark.GenBridge.Book.addTable_eq := @Ark.GenBridge.Book.addTable_eq
+/-- `archetype.RemoveTarget` as in the source = the model's -/
+theorem src_idx_removeTarget : type_of% @Ark.GenBridge.Book.removeTarget_eq := @Ark.GenBridge.Book.removeTarget_eq
+/-- `archetype.GetFreeTable` as in the source = the model's (pop the last free table) -/
+theorem src_idx_getFreeTable : type_of% @Ark.GenBridge.Book.getFreeTable_eq := @Ark.GenBridge.Book.getFreeTable_eq
+/-- `archetype.HasRelations` as in the source = the model's -/
+theorem src_idx_hasRelations : type_of% @Ark.GenBridge.Book.hasRelations_eq := @Ark.GenBridge.Book.hasRelations_eq
+/-- `archetype.FreeAllTables` as in the source = the model's `freeAllTables`: every per-column lookup and the per-target lookup are emptied -/
+theorem src_idx_freeAllTables : type_of% @Ark.GenBridge.Book.freeAllTables_eq := @Ark.GenBridge.Book.freeAllTables_eq
+/-- … and exactly the archetype's active tables are marked free in the table store -/
+theorem src_idx_freeAllTables_storage : type_of% @Ark.GenBridge.Book.freeAllTables_storage := @Ark.GenBridge.Book.freeAllTables_storage
+/-- what marking a list of tables free does to the table store -/
+theorem src_idx_markFree : type_of% @Ark.GenBridge.Book.markFree_fold := @Ark.GenBridge.Book.markFree_fold
 
 end Ark.Props.C03
